@@ -123,6 +123,9 @@ def run(ctx):
                 "string-literal form in marks, tabs, CRLF, non-ASCII text before tokens) served by the real server; every "
                 "returned Range judged structurally and against CPython token spans in UTF-16; distinct = generator feature "
                 "tokens x response kinds")
+    pinned(ctx)
+    if os.environ.get("VERIF_ONLY_PINNED"):
+        return
     for i in range(n):
         root = ctx.scratch(f"w{i}")
         s1 = srcgen.gen_source(ctx.rng, unicode_noise=0.5 if i % 2 == 0 else 0.0, plain_strings=(i % 3 != 0))
@@ -372,3 +375,13 @@ def refs_and_hierarchy(ctx, srv, d, docs, p, line0, col, all_usage_spans, def_li
                             continue
                         ctx.violation({"kind": "range-is-not-the-token", "what": "outgoingCalls.fromRanges"},
                                       {"range": fr, "line_text": line_txt, "to": nm}, files=files)
+
+
+def pinned(ctx):
+    from ..witness import WITNESS
+    files = WITNESS["KF-C15"]["files"]
+    root = ctx.scratch("pinned")
+    write_tree(root, files)
+    docs = {os.path.join(root, r): Doc(os.path.join(root, r), t) for r, t in files.items()}
+    one_workspace(ctx, root, docs, files, {"pinned_witness"})
+    shutil.rmtree(root, ignore_errors=True)
